@@ -9,6 +9,7 @@ package c01
 
 import (
 	"bytes"
+	"errors"
 	"fmt"
 	"io"
 	"log"
@@ -25,8 +26,15 @@ import (
 
 	as "github.com/dfklegend/cell2/actorex/service"
 	messages "github.com/dfklegend/cell2/actorex/service/servicemsgs"
+	api "github.com/dfklegend/cell2/apimapper"
+	"github.com/dfklegend/cell2/apimapper/apientry"
 	"github.com/dfklegend/cell2/node/app"
+	"github.com/dfklegend/cell2/node/builtin/msgs"
+	appdefine "github.com/dfklegend/cell2/nodectrl/define"
+	"github.com/dfklegend/cell2/node/cluster"
+	"github.com/dfklegend/cell2/node/route"
 	ns "github.com/dfklegend/cell2/node/service"
+	protoser "github.com/dfklegend/cell2/utils/serialize/proto"
 	"github.com/dfklegend/cell2/utils/common"
 	"github.com/dfklegend/cell2/utils/logger"
 
@@ -36,8 +44,12 @@ import (
 const (
 	clock0      = int64(1000000)
 	ackTimeout  = 10 * time.Second
+	localAddr   = "h:0" // address of the in-process actor system = host:port of the one cluster member
 	noSuchRoute = "ghost.remote.method"
 	noSuchParam = "c01-no-such-service"
+	typeDefault = "peer"  // service type resolved by node/app's default route (first working service)
+	typeFunc    = "peerx" // service type resolved by a route function registered in route.TheRouteService
+	noMethodErr = int64(-1)
 )
 
 // a message the proto serializer rejects ("msg must be proto.Message")
@@ -113,12 +125,80 @@ func (h *hsvc) Receive(ctx actor.Context) {
 
 // ---- the scripted peer
 
+// RemoteEntry is the peer's API (group "remote"), reached through APIDispatcher.Dispatch
+// when a request carries a route.
+type RemoteEntry struct {
+	api.APIEntry
+	p *peerSvc
+}
+
+// Park is request-shaped: the completion function is kept until the driver says how to answer.
+func (e *RemoteEntry) Park(ctx *as.RemoteContext, msg *messages.TestHello, cb apientry.HandlerCBFunc) error {
+	if cb != nil {
+		e.p.parkedByTag[int64(msg.I)] = cb
+	}
+	e.p.apiCalls++
+	return nil
+}
+
+// Note is notify-shaped.
+func (e *RemoteEntry) Note(ctx *as.RemoteContext, msg *messages.TestHello) error {
+	e.p.apiCalls++
+	return nil
+}
+
+// SysEntry answers the built-in routes sys.querysession / sys.kick (app.QuerySession, app.Kick);
+// registered with a lower-casing name function.
+type SysEntry struct {
+	api.APIEntry
+	p *peerSvc
+}
+
+func (e *SysEntry) Querysession(ctx *as.RemoteContext, msg *msgs.QuerySession, cb apientry.HandlerCBFunc) error {
+	if cb != nil {
+		e.p.parkedByTag[int64(msg.SessionId)] = cb
+	}
+	e.p.apiCalls++
+	return nil
+}
+
+func (e *SysEntry) Kick(ctx *as.RemoteContext, msg *msgs.Kick, cb apientry.HandlerCBFunc) error {
+	if cb != nil {
+		e.p.parkedByTag[int64(msg.SessionId)] = cb
+	}
+	e.p.apiCalls++
+	return nil
+}
+
+type OtherEntry struct{ api.APIEntry }
+
+func (e *OtherEntry) Ping(ctx *as.RemoteContext, msg *messages.TestHello) error { return nil }
+
 type peerSvc struct {
 	*as.Service
-	w        *world
-	reqs     map[int32]*messages.ServiceRequest
-	lastNote *messages.ServiceRequest
-	seen     [][2]int64
+	w           *world
+	reqs        map[int32]*messages.ServiceRequest // requests that reached ReceiveRequest
+	parked      map[int32]apientry.HandlerCBFunc   // API completions not yet used, by request id
+	parkedByTag map[int64]apientry.HandlerCBFunc
+	held        map[int32]*messages.ServiceRequest // requests whose processing is deferred (no such method)
+	released    map[*messages.ServiceRequest]bool
+	lastNote    *messages.ServiceRequest
+	seen        [][2]int64
+	apiCalls    int
+}
+
+func bodyTag(req *messages.ServiceRequest) int64 {
+	if m, err := remote.Deserialize(req.Body, req.Type, as.DefaultSerializeId); err == nil {
+		switch h := m.(type) {
+		case *messages.TestHello:
+			return int64(h.I)
+		case *msgs.QuerySession:
+			return int64(h.SessionId)
+		case *msgs.Kick:
+			return int64(h.SessionId)
+		}
+	}
+	return -2
 }
 
 func (p *peerSvc) Receive(ctx actor.Context) {
@@ -126,19 +206,34 @@ func (p *peerSvc) Receive(ctx actor.Context) {
 	case *peerCmd:
 		p.command(ctx, m)
 		return
+	case *messages.ServiceRequest:
+		if p.released[m] {
+			delete(p.released, m)
+			p.Service.Receive(ctx) // the deferred processing: Dispatch answers "no method"
+			return
+		}
+		tag := bodyTag(m)
+		if m.Sender != nil {
+			p.seen = append(p.seen, [2]int64{int64(m.ReqId), tag})
+		}
+		if m.ReqId == as.NotifyReqID {
+			p.lastNote = m
+		} else if strings.HasSuffix(m.Route, ".NoSuch") {
+			p.held[m.ReqId] = m
+			return
+		}
+		p.Service.Receive(ctx)
+		if cb := p.parkedByTag[tag]; cb != nil && m.ReqId != as.NotifyReqID {
+			delete(p.parkedByTag, tag)
+			p.parked[m.ReqId] = cb
+		}
+		return
 	}
 	p.Service.Receive(ctx)
 }
 
 func (p *peerSvc) ReceiveRequest(ctx actor.Context, request *messages.ServiceRequest, rawMsg interface{}) {
-	tag := int64(-2)
-	if h, ok := rawMsg.(*messages.TestHello); ok {
-		tag = int64(h.I)
-	}
-	p.seen = append(p.seen, [2]int64{int64(request.ReqId), tag})
-	if request.ReqId == as.NotifyReqID {
-		p.lastNote = request
-	} else {
+	if request.ReqId != as.NotifyReqID {
 		p.reqs[request.ReqId] = request
 	}
 }
@@ -150,8 +245,15 @@ func (p *peerSvc) command(ctx actor.Context, c *peerCmd) {
 		p.seen = nil
 		c.seen <- s
 		return
+	case "fwd-barrier":
+		ctx.Send(p.w.svcPID, &barrier{ack: c.ack})
+		return
 	case "resp":
-		p.respond(ctx, int32(c.id), c.kind)
+		if p.respond(ctx, int32(c.id), c.kind) {
+			// the answer is produced by the deferred request, which is behind us in the mailbox
+			ctx.Send(ctx.Self(), &peerCmd{what: "fwd-barrier", ack: c.ack})
+			return
+		}
 	case "resp-notify":
 		if p.lastNote != nil {
 			p.Response(p.lastNote, as.CodeSucc, "", &messages.TestHello{I: 7})
@@ -162,29 +264,52 @@ func (p *peerSvc) command(ctx actor.Context, c *peerCmd) {
 	ctx.Send(p.w.svcPID, &barrier{ack: c.ack})
 }
 
-// respond answers request id: through the real Service.Response when the peer holds that
-// request and the reply can be produced by it, otherwise with a hand-made ServiceResponse.
-func (p *peerSvc) respond(ctx actor.Context, id int32, k hx.T) {
+// respond answers request id with kind k through the most real path available:
+//   - a held request to a missing method, answered "no method": released to Dispatch, whose
+//     error reply goes through Service.Response (returns true: the reply is still to come);
+//   - a parked API completion (first use): invoked, the reply goes through the dispatcher's
+//     closure and Service.Response;
+//   - a request that reached ReceiveRequest: Service.Response;
+//   - otherwise (unknown / already answered id, undecodable body): a hand-made ServiceResponse.
+func (p *peerSvc) respond(ctx actor.Context, id int32, k hx.T) bool {
+	if req := p.held[id]; req != nil && k.Name == "KErr" && k.Int(0) == noMethodErr {
+		delete(p.held, id)
+		p.released[req] = true
+		ctx.Send(ctx.Self(), req)
+		return true
+	}
+	if cb := p.parked[id]; cb != nil && (k.Name == "KOk" || k.Name == "KNil" || k.Name == "KErr") {
+		delete(p.parked, id)
+		switch k.Name {
+		case "KOk":
+			cb(nil, &messages.TestHello{I: int32(k.Int(0))})
+		case "KNil":
+			cb(nil, nil)
+		case "KErr":
+			cb(errors.New(fmt.Sprintf("E:%d", k.Int(0))), nil)
+		}
+		return false
+	}
 	req := p.reqs[id]
 	switch k.Name {
 	case "KOk":
 		if req != nil {
 			p.Response(req, as.CodeSucc, "", &messages.TestHello{I: int32(k.Int(0))})
-			return
+			return false
 		}
 		b, tn, _ := remote.Serialize(&messages.TestHello{I: int32(k.Int(0))}, as.DefaultSerializeId)
 		ctx.Send(p.w.svcPID, &messages.ServiceResponse{ReqId: id, Type: tn, Body: b})
 	case "KNil":
 		if req != nil {
 			p.Response(req, as.CodeSucc, "", nil)
-			return
+			return false
 		}
 		ctx.Send(p.w.svcPID, &messages.ServiceResponse{ReqId: id})
 	case "KErr":
 		info := fmt.Sprintf("E:%d", k.Int(0))
 		if req != nil {
 			p.Response(req, as.CodeErrString, info, nil)
-			return
+			return false
 		}
 		ctx.Send(p.w.svcPID, &messages.ServiceResponse{ReqId: id, ErrCode: as.CodeErrString, ErrInfo: info})
 	case "KBad":
@@ -196,6 +321,7 @@ func (p *peerSvc) respond(ctx actor.Context, id int32, k hx.T) {
 	default:
 		panic("c01: unknown kind " + k.Name)
 	}
+	return false
 }
 
 // ---- one world per case
@@ -214,6 +340,16 @@ func system() *actor.ActorSystem {
 		sys = actor.NewActorSystem(actor.WithLoggerFactory(func(*actor.ActorSystem) *slog.Logger {
 			return slog.New(slog.NewTextHandler(io.Discard, nil))
 		}))
+		// PIDs built by node/app from the cluster view (host:port of the member) are local
+		sys.ProcessRegistry.Address = localAddr
+		// service type "peerx" is routed by a registered route function reading the parameter
+		route.GetRouteService().Register(typeFunc, func(serviceType string, p route.IRouteParam) string {
+			if p == nil {
+				return ""
+			}
+			v, _ := p.Get("target", "").(string)
+			return v
+		})
 	})
 	return sys
 }
@@ -223,7 +359,9 @@ type world struct {
 	peer    *peerSvc
 	svcPID  *actor.PID
 	peerPID *actor.PID
+	peerName string
 	clock   int64
+	via     int64 // how requests reach the peer (op Via)
 
 	// touched only on the service goroutine
 	loopGid int64
@@ -239,13 +377,40 @@ func newWorld() *world {
 	common.VerifSetNowMs(w.clock)
 	s := system()
 	serial++
-	pprops, _ := as.NewServicePropsWithNewScheDisp(func() actor.Actor {
-		p := &peerSvc{Service: as.NewService(), w: w, reqs: map[int32]*messages.ServiceRequest{}}
+	w.peerName = fmt.Sprintf("c01-peer-%d", serial)
+	entry := &RemoteEntry{}
+	sysEntry := &SysEntry{}
+	pprops, pext := as.NewServicePropsWithNewScheDisp(func() actor.Actor {
+		p := &peerSvc{Service: as.NewService(), w: w,
+			reqs:        map[int32]*messages.ServiceRequest{},
+			parked:      map[int32]apientry.HandlerCBFunc{},
+			parkedByTag: map[int64]apientry.HandlerCBFunc{},
+			held:        map[int32]*messages.ServiceRequest{},
+			released:    map[*messages.ServiceRequest]bool{}}
 		p.Service.InitReqReceiver(p)
+		entry.p = p
+		sysEntry.p = p
 		w.peer = p
 		return p
 	}, "")
-	w.peerPID, _ = s.Root.SpawnNamed(pprops, fmt.Sprintf("c01-peer-%d", serial))
+	// two collections (and a nil), so that Dispatch has to walk past one that lacks the method
+	ser := protoser.GetDefaultSerializer()
+	other := apientry.NewCollection()
+	other.Register(&OtherEntry{}, apientry.WithGroupName("other"),
+		apientry.WithSerializer(ser), apientry.WithSerializeRet(false)).Build()
+	col := apientry.NewCollection()
+	col.Register(entry, apientry.WithGroupName("remote"),
+		apientry.WithSerializer(ser), apientry.WithSerializeRet(false)).
+		Register(sysEntry, apientry.WithGroupName("sys"), apientry.WithNameFunc(strings.ToLower),
+			apientry.WithSerializer(ser), apientry.WithSerializeRet(false)).Build()
+	pext.WithDispatcher(as.NewDispatcher(other, nil, col))
+	w.peerPID, _ = s.Root.SpawnNamed(pprops, w.peerName)
+	// the cluster view of node/app: one working member on the local address offering the peer
+	// under both service types
+	app.Node.GetCluster().UpdateClusterTopology([]*cluster.Member{{
+		Id: "c01@n1", Host: "h", Port: 0, State: int(appdefine.Working),
+		Services: []string{typeDefault + "." + w.peerName, typeFunc + "." + w.peerName},
+	}})
 	sprops, _ := as.NewServicePropsWithNewScheDisp(func() actor.Actor {
 		h := &hsvc{NodeService: ns.NewService(), w: w}
 		w.svc = h
@@ -273,12 +438,7 @@ func (w *world) senderMiddleware(next actor.SenderFunc) actor.SenderFunc {
 	return func(c actor.SenderContext, target *actor.PID, env *actor.MessageEnvelope) {
 		if req, ok := env.Message.(*messages.ServiceRequest); ok {
 			w.checkLoop()
-			tag := int64(-2)
-			if m, err := remote.Deserialize(req.Body, req.Type, as.DefaultSerializeId); err == nil {
-				if h, ok := m.(*messages.TestHello); ok {
-					tag = int64(h.I)
-				}
-			}
+			tag := bodyTag(req)
 			id := int64(req.ReqId)
 			if id != 0 && !w.issued[tag] && w.isPending(id) {
 				// the wait is in the table while the request is being sent
@@ -324,6 +484,8 @@ func classify(err error, msg interface{}) any {
 		return "RTimeout"
 	case err == app.ErrorNoService:
 		return "RNoService"
+	case err != nil && strings.HasPrefix(err.Error(), "no method"):
+		return hx.C("RErr", noMethodErr)
 	case err != nil && strings.HasPrefix(err.Error(), "E:"):
 		if v, e := strconv.ParseInt(err.Error()[2:], 10, 64); e == nil {
 			return hx.C("RErr", v)
@@ -350,6 +512,69 @@ func (w *world) callback(tag int64, prog []hx.T) func(error, interface{}) {
 	}
 }
 
+// How a request / notification reaches the peer, by the current Via value:
+//   0  Service.Request / Service.Notify with the peer's PID (no route: ReceiveRequest)
+//   1  app.Request / app.Notify, service type resolved by node/app's default route;
+//      API methods remote.Park (request-shaped) / remote.Note (notify-shaped)
+//   2  app.Request / app.Notify, service type resolved by a registered route function from a
+//      map parameter; request to a missing method (the dispatcher answers "no method" when the
+//      driver releases it), notification to the request-shaped method
+//   3  as 2; request to the NOTIFY-shaped method (never answered by the peer), notification to
+//      the missing method (the dispatcher's error reply is suppressed)
+//   4  app.QuerySession (built-in route sys.querysession); 5  app.Kick (sys.kick); the tag
+//      travels as the session id; notifications as 0
+func (w *world) target() map[string]interface{} {
+	return map[string]interface{}{"target": w.peerName}
+}
+
+func (w *world) sendRequest(msg interface{}, cb func(error, interface{})) {
+	if h, ok := msg.(*messages.TestHello); ok && w.via >= 4 {
+		if w.via == 4 {
+			app.QuerySession(w.svc.NodeService, w.peerName, uint32(h.I), cb)
+		} else {
+			app.Kick(w.svc.NodeService, w.peerName, uint32(h.I), cb)
+		}
+		return
+	}
+	switch w.via {
+	case 1:
+		app.Request(w.svc.NodeService, typeDefault+".remote.Park", nil, msg, cb)
+	case 2:
+		app.Request(w.svc.NodeService, typeFunc+".remote.NoSuch", w.target(), msg, cb)
+	case 3:
+		app.Request(w.svc.NodeService, typeFunc+".remote.Note", w.target(), msg, cb)
+	default:
+		w.svc.Request(w.peerPID, msg, cb)
+	}
+}
+
+func (w *world) sendNotify(msg interface{}) {
+	switch w.via {
+	case 1:
+		app.Notify(w.svc.NodeService, typeDefault+".remote.Note", nil, msg)
+	case 2:
+		app.Notify(w.svc.NodeService, typeFunc+".remote.Park", w.target(), msg)
+	case 3:
+		app.Notify(w.svc.NodeService, typeFunc+".remote.NoSuch", w.target(), msg)
+	default:
+		w.svc.Notify(w.peerPID, msg)
+	}
+}
+
+// a route and parameter for which routing finds no target
+func (w *world) noTarget() (string, interface{}) {
+	switch w.via {
+	case 1:
+		return "malformed-route", nil // not serviceType.registry.method
+	case 2:
+		return typeFunc + ".remote.Park", map[string]interface{}{"target": ""} // route function yields nothing
+	case 3:
+		return typeFunc + ".remote.Park", map[string]interface{}{"target": noSuchParam} // unknown service
+	default:
+		return noSuchRoute, noSuchParam // string parameter naming an unknown service
+	}
+}
+
 func (w *world) execAct(a hx.T) {
 	switch a.Name {
 	case "AReq", "AUnser":
@@ -359,7 +584,7 @@ func (w *world) execAct(a hx.T) {
 		if a.Name == "AUnser" {
 			msg = &unserialisable{X: int(tag)}
 		}
-		w.svc.Request(w.peerPID, msg, w.callback(tag, hx.Terms(a.Args[0])))
+		w.sendRequest(msg, w.callback(tag, hx.Terms(a.Args[0])))
 		if !w.issued[tag] {
 			// nothing was sent while the wait was in the table: look for it now
 			id := int64(w.svc.VerifNextId())
@@ -369,13 +594,24 @@ func (w *world) execAct(a hx.T) {
 			}
 		}
 	case "ANotify":
-		w.svc.Notify(w.peerPID, &messages.TestHello{I: -1})
+		w.sendNotify(&messages.TestHello{I: -1})
 	case "ANoRoute":
 		tag := w.nextTag
 		w.nextTag++
 		w.rec(hx.C("ENoRoute", tag))
-		app.Request(w.svc.NodeService, noSuchRoute, noSuchParam, &messages.TestHello{I: int32(tag)},
-			w.callback(tag, hx.Terms(a.Args[0])))
+		switch w.via {
+		case 4:
+			app.QuerySession(w.svc.NodeService, noSuchParam, uint32(tag), w.callback(tag, hx.Terms(a.Args[0])))
+		case 5:
+			app.Kick(w.svc.NodeService, noSuchParam, uint32(tag), w.callback(tag, hx.Terms(a.Args[0])))
+		default:
+			r, p := w.noTarget()
+			app.Request(w.svc.NodeService, r, p, &messages.TestHello{I: int32(tag)},
+				w.callback(tag, hx.Terms(a.Args[0])))
+		}
+	case "ANotifyNR":
+		r, p := w.noTarget()
+		app.Notify(w.svc.NodeService, r, p, &messages.TestHello{I: -1})
 	default:
 		panic("c01: unknown act " + a.Name)
 	}
@@ -412,6 +648,13 @@ func (w *world) handle(m *opMsg) {
 		if dt := o.Int(0); dt >= 0 {
 			w.clock += dt
 			common.VerifSetNowMs(w.clock)
+		}
+	case "Via":
+		w.rec("EIdle")
+		if v := o.Int(0); v >= 0 && v <= 5 {
+			w.via = v
+		} else {
+			w.via = 0
 		}
 	case "SetNext":
 		w.rec("EIdle")
@@ -513,6 +756,17 @@ func Exec(ops []hx.T) (obs []any, nontrivial bool) {
 			}
 		case "RespNoSender":
 			r = w.toPeer("resp-nosender", o.Int(0), hx.T{})
+			if r != nil {
+				r.evs = append([]any{"EIdle"}, r.evs...)
+			}
+		case "DirectNotify":
+			// a sender-less notification from outside any service, then a barrier through the peer
+			var m interface{} = &messages.TestHello{I: -1}
+			if o.Int(0) != 0 {
+				m = &unserialisable{}
+			}
+			as.DirectSendNotify(system().Root, w.peerPID, "remote.Note", m)
+			r = w.toPeer("fwd-barrier", 0, hx.T{})
 			if r != nil {
 				r.evs = append([]any{"EIdle"}, r.evs...)
 			}
